@@ -86,11 +86,14 @@ def run(P, chk, tier):
     for b, x in fu.all_nodes():
         if x.get("k") == "Bin" and x["op"] == "=" and pp(sk(x["a"][0])) in retvars and cval(sk(x["a"][1])) is None:
             sites.append((x, sk(x["a"][1])))
+    for b, x in fu.all_nodes():
         if x.get("k") == "Return" and x.get("a") and cval(sk(x["a"][0])) is None:
             e = sk(x["a"][0])
             assigned = any(y.get("k") == "Bin" and y["op"] == "=" and pp(sk(y["a"][0])) == pp(e) for bb, y in fu.all_nodes()) or \
                 any(d.get("init") is not None and d["ref"]["name"] == pp(e) for bb, y in fu.all_nodes() if y.get("k") == "Decl" for d in y["decls"])
-            if not assigned or e.get("k") != "Ref" or e["ref"]["rk"] != "local":
+            chosen = any(pp(sk(y["a"][0])) == pp(e) for y, _ in sites if y.get("k") == "Bin")
+            if not assigned or e.get("k") != "Ref" or e["ref"]["rk"] != "local" or not chosen:
+                # (a returned loop counter is "assigned" only by its initialisation: the return is where it is chosen)
                 sites.append((x, e))
     if not sites:
         raise AnalysisBroken("C18.R3: no result site in find_user_by_ip")
